@@ -75,6 +75,8 @@ class SimFS:
         # bookkeeping for oracles
         self.events = []  # (op, path, detail) of mutating + reading ops
         self.mutations = 0
+        # advisory whole-file locks (flock / lockf): ino -> {fd: (owner, ex)}
+        self.locks = {}
 
     # -- helpers
     def _new_inode(self, kind, mode):
@@ -195,6 +197,46 @@ class SimFS:
         o = self._ofd(fd)
         o.closed = True
         del self.fds[fd]
+        held = self.locks.get(o.inode.ino)
+        if held and fd in held:
+            del held[fd]
+
+    def op_flock(self, fd, exclusive, unlock=False):
+        """advisory lock on the whole file; -> True if granted"""
+        o = self._ofd(fd)
+        held = self.locks.setdefault(o.inode.ino, {})
+        if unlock:
+            held.pop(fd, None)
+            return True
+        others = {k: v for k, v in held.items()
+                  if k != fd and v[0] != o.owner}
+        if exclusive and others:
+            return False
+        if not exclusive and any(ex for (_own, ex) in others.values()):
+            return False
+        held[fd] = (o.owner, exclusive)
+        self.log("flock", o.path, "ex" if exclusive else "sh")
+        return True
+
+    def lock_grantable(self, fd, exclusive, owner):
+        o = self.fds.get(fd)
+        if o is None:
+            return True
+        held = self.locks.get(o.inode.ino, {})
+        others = {k: v for k, v in held.items()
+                  if k != fd and v[0] != owner}
+        if exclusive:
+            return not others
+        return not any(ex for (_own, ex) in others.values())
+
+    def release_process(self, owner):
+        """process exit or kill: the kernel closes its descriptors and drops
+        its locks"""
+        for fd in [fd for fd, o in self.fds.items() if o.owner == owner]:
+            try:
+                self.op_close(fd)
+            except OSError:
+                pass
 
     def op_read(self, fd, n):
         o = self._ofd(fd)
@@ -876,10 +918,44 @@ def install():
     path_dispatch("readlink", unsupported("readlink"))
     path_dispatch("chown", unsupported("chown"))
 
-    # fcntl / mmap on sim fds are not modelled
+    # advisory locks on sim fds: flock / lockf (whole file); the rest of fcntl
+    # and mmap on sim fds are not modelled
     try:
         import fcntl
-        for nm in ("flock", "lockf", "fcntl", "ioctl"):
+
+        def sim_lock(fd, operation, *a):
+            fdn = fd if isinstance(fd, int) else fd.fileno()
+            unlock = bool(operation & fcntl.LOCK_UN)
+            exclusive = bool(operation & fcntl.LOCK_EX)
+            nonblock = bool(operation & fcntl.LOCK_NB)
+            while True:
+                ok = _gate("flock", fdn, lambda f: SEAM.fs.op_flock(
+                    fdn, exclusive, unlock))
+                if ok:
+                    return None
+                if nonblock:
+                    raise BlockingIOError(errno.EAGAIN,
+                                          os.strerror(errno.EAGAIN))
+                g = SEAM.gate
+                if g is None or not g.block(fdn, exclusive):
+                    raise SimUnsupported("blocking lock outside a virtual "
+                                         "process")
+
+        for nm in ("flock", "lockf"):
+            realf = getattr(fcntl, nm)
+
+            def mk2(realf):
+                def d(fd, operation, *a, **k):
+                    fdn = fd if isinstance(fd, int) else getattr(
+                        fd, "fileno", lambda: -1)()
+                    if is_sim_fd(fdn):
+                        return sim_lock(fd, operation)
+                    return realf(fd, operation, *a, **k)
+
+                return d
+
+            setattr(fcntl, nm, mk2(realf))
+        for nm in ("fcntl", "ioctl"):
             realf = getattr(fcntl, nm)
 
             def mk(realf, nm):
